@@ -39,14 +39,14 @@ func TestVerif_C10C01_ParseableRoot(t *testing.T) {
 	res := &xResult{Check: "Parseable root", Property: "C10 C01", Exhaustive: true,
 		Bound: "all inputs of length <= 6 (thorough: 7) over {a, b, 1, space, newline, #c + newline (comment)} with white space and comments elided, with and without AllowTrailing, against the tag grammar @Ident+",
 		Rule: "distinct (input, option) pairs; non-trivial = the input has an elided token"}
-	lex := lexer.MustSimple([]lexer.SimpleRule{{Name: "Ident", Pattern: `[a-z]+`}, {Name: "Int", Pattern: `\d+`}, {Name: "comment", Pattern: `#[^\n]*\n?`}, {Name: "whitespace", Pattern: `\s+`}})
-	pr, err := participle.Build[rpWords](participle.Lexer(lex))
+	lex := lexer.MustSimple([]lexer.SimpleRule{{Name: "Ident", Pattern: `[a-z]+`}, {Name: "Int", Pattern: `\d+`}, {Name: "Comment", Pattern: `#[^\n]*\n?`}, {Name: "Whitespace", Pattern: `\s+`}})
+	pr, err := participle.Build[rpWords](participle.Lexer(lex), participle.Elide("Comment", "Whitespace"))
 	if err != nil {
 		res.violate("Build Parseable root: %v", err)
 		res.emit(t)
 		return
 	}
-	pt, err := participle.Build[rpTagged](participle.Lexer(lex))
+	pt, err := participle.Build[rpTagged](participle.Lexer(lex), participle.Elide("Comment", "Whitespace"))
 	if err != nil {
 		res.violate("Build tag grammar: %v", err)
 		res.emit(t)
